@@ -90,7 +90,11 @@ class Harness:
         return out
 
     def render(self):
-        attrs = ["#[kani::proof]"]
+        attrs = []
+        conds = ['feature = "%s"' % f for f in self.requires] + ['not(feature = "%s")' % f for f in self.forbids]
+        if conds:
+            attrs.append("#[cfg(all(%s))]" % ", ".join(conds))
+        attrs.append("#[kani::proof]")
         if self.unwind:
             attrs.append("#[kani::unwind(%d)]" % self.unwind)
         if self.stub_utf8:
